@@ -442,6 +442,39 @@ def _refilled_from_argument(f, attr, guard_node):
     return False
 
 
+def _key_paired_at_call_sites(f, key_params, value_params):
+    """f is a method whose cache key is its parameter(s) `key_params` and whose cached value depends on `value_params`:
+    True when the class calls it (self.f(..)) at least once and at every call site the key argument is computed from
+    every caller argument the value argument is computed from"""
+    if f.cls is None:
+        return False
+    a = f.node.args
+    names = [x.arg for x in a.posonlyargs + a.args][1:]
+    sites = 0
+    for k in list(f.cls.mro) + list(f.cls.all_subclasses()):
+        for caller in k.methods.values():
+            if caller is f:
+                continue
+            _, cpd = _param_deps(caller)
+            for c in _walk_fn(caller.node):
+                if not (isinstance(c, ast.Call) and isinstance(c.func, ast.Attribute) and c.func.attr == f.name and isinstance(c.func.value, ast.Name) and c.func.value.id == "self"):
+                    continue
+                bound = dict(zip(names, c.args))
+                bound.update({kw.arg: kw.value for kw in c.keywords if kw.arg})
+                if any(p_ not in bound for p_ in key_params + value_params):
+                    return False
+                kd = set()
+                for p_ in key_params:
+                    kd |= cpd(bound[p_])
+                vd = set()
+                for p_ in value_params:
+                    vd |= cpd(bound[p_])
+                if not vd <= kd:
+                    return False
+                sites += 1
+    return sites > 0
+
+
 def check_persistent_state(repo, chk, prefixes, rule="P-state"):
     """a method must not keep, on the object, a value computed from the arguments of one call and serve it to later
     calls made with other arguments: (1) `if <self.A not set yet>: self.A = f(args)`; (2) `if k not in self.C:
@@ -531,6 +564,10 @@ def check_persistent_state(repo, chk, prefixes, rule="P-state"):
                     vp, kp = pd(n.value), pd(t.slice)  # the KEY must carry the arguments; a guard that mentions them does not key the entry
                     if isinstance(t.value, ast.Name):
                         kp = kp | alias_params.get(t.value.id, set())   # ... or the choice of the table does
+                    if vp and not vp <= kp and isinstance(t.slice, ast.Name) and kp and _key_paired_at_call_sites(f, sorted(kp), sorted(vp - kp)):
+                        # a private helper that is handed key and value: every call site of the class passes a key
+                        # computed from the very argument the value is computed from (self._fill(id(data), data))
+                        continue
                     if vp and not vp <= kp:
                         hits.append((attr, n, "`self.%s[%s] = %s` under `%s`: the value depends on the argument(s) %s, the key does not" % (attr, norm_text(t.slice)[:30], norm_text(n.value)[:50], norm_text(guard.test)[:40], sorted(vp - kp))))
             short = "%s.%s" % (f.cls.name, f.name)
